@@ -6,6 +6,7 @@ import (
 	"net"
 	"os"
 	"reflect"
+	"runtime/metrics"
 	"sync"
 	"sync/atomic"
 	"time"
@@ -44,9 +45,10 @@ func init() {
 			}
 		},
 		Assumptions: []string{
-			"faults are those a TCP client can cause: arbitrary byte streams and connection lifecycles; memory exhaustion by a peer that declares a huge chunk and trickles data is not a crash and is not claimed",
+			"faults are those a TCP client can cause: arbitrary byte streams and connection lifecycles; memory that grows with the bytes a peer actually sends (a huge declared chunk trickled in slowly) is not a crash and is not claimed; memory that grows with a DECLARED length is (see the heap sampler below)",
 			"'parsing handlers' = README pattern: every registered ID gets a per-connection handler whose OnReadExecutionEvent calls Parse and String() on its own receiver, 0x0200 with the extension dispatcher",
 			"a canary / probe that gets no answer within its wall-clock watchdog while the process is alive is inconclusive; a dead process or a wrong answer is a violation",
+			"memory: this sandbox has no memory limit, so an allocation sized by a hostile length field would not kill the process here; a 1 ms heap sampler stands in for the OOM killer: live-heap growth of more than 1 GiB over the baseline while hostile connections send a few KiB each is a violation, recorded by the child, which then exits at once (the unchanged servers allocate by bytes received only)",
 		},
 	}, map[string]Worker{
 		"jt808-default": func(c *core.Collector, x *Ctx) { c10JT808(c, x, false) },
@@ -569,6 +571,7 @@ func c10JT808(c *core.Collector, x *Ctx, parsing bool) {
 		c.Inconclusive()
 		return
 	}
+	defer c10MemGuard(c, x)()
 	var stop atomic.Bool
 	var rounds atomic.Int64
 	var wg sync.WaitGroup
@@ -762,6 +765,64 @@ func c10Hex(ws [][]byte) string {
 	return s
 }
 
+// memWatch samples the Go heap of this process (harness + server under attack) every millisecond. Hostile connections
+// send at most a few KiB each, so the live heap has no reason to grow by gigabytes: growth far beyond the bytes
+// actually received means server memory is driven by a client-controlled length field (a process-wide OOM on any
+// smaller machine). Returns a function that stops the watcher and reports (baseline, peak) in bytes.
+func memWatch(onExceed func(base, now uint64)) func() (uint64, uint64) {
+	sample := []metrics.Sample{{Name: "/memory/classes/heap/objects:bytes"}}
+	metrics.Read(sample)
+	base := sample[0].Value.Uint64()
+	var peak atomic.Uint64
+	peak.Store(base)
+	var stop atomic.Bool
+	done := make(chan struct{})
+	go func() {
+		defer close(done)
+		s := []metrics.Sample{{Name: "/memory/classes/heap/objects:bytes"}}
+		fired := false
+		for !stop.Load() {
+			metrics.Read(s)
+			v := s[0].Value.Uint64()
+			if v > peak.Load() {
+				peak.Store(v)
+			}
+			if !fired && v > base && v-base > c10MemLimit {
+				fired = true
+				onExceed(base, v)
+			}
+			time.Sleep(time.Millisecond)
+		}
+	}()
+	return func() (uint64, uint64) {
+		stop.Store(true)
+		<-done
+		return base, peak.Load()
+	}
+}
+
+const c10MemLimit = 1 << 30
+
+// c10MemGuard starts the heap watcher for one server under attack. When the live heap exceeds the baseline by more than
+// c10MemLimit the violation is recorded, the report is written and the child exits at once: the sandbox has no memory
+// limit, and letting a length-field-driven allocation run its course gets children SIGKILLed by the kernel instead.
+func c10MemGuard(c *core.Collector, x *Ctx) func() {
+	stopWatch := memWatch(func(base, now uint64) {
+		c.Violate("memory|live heap grew by more than 1 GiB while every hostile connection sent only a few KiB", fmt.Sprintf("baseline %d MiB, now %d MiB: server memory is driven by a client-controlled length field, not by the bytes received (a process-wide out-of-memory death on a smaller machine); last journalled connection: %s", base>>20, now>>20, x.Journal.Last()), nil)
+		c.Count("heap_baseline_MiB", int64(base>>20))
+		c.Count("heap_peak_MiB", int64(now>>20))
+		if x.Out != "" {
+			c.WriteTo(x.Out)
+		}
+		os.Exit(0)
+	})
+	return func() {
+		base, peak := stopWatch()
+		c.Count("heap_baseline_MiB", int64(base>>20))
+		c.Count("heap_peak_MiB", int64(peak>>20))
+	}
+}
+
 // ---- attachment server -------------------------------------------------------------------------
 
 func c10AttSession(addr string, id int) (ok bool, timedOut bool, detail string) {
@@ -797,6 +858,7 @@ func c10Att(c *core.Collector, x *Ctx, defaultHandler bool) {
 		c.Inconclusive()
 		return
 	}
+	defer c10MemGuard(c, x)()
 	// opaque one-byte fields swept over all 256 values in otherwise well-formed frames (file type of 0x1211/0x1212, info type of 0x1210)
 	for v := 0; v < 256; v++ {
 		f := att.File{Name: []byte(fmt.Sprintf("sweep%d.bin", v)), Size: 4}
